@@ -59,7 +59,7 @@ type Part struct {
 	Traces      int64               `json:"traces"`
 	Flaky       []string            `json:"flaky"`
 	FlakyV      map[string]*Viol    `json:"flaky_v"` // first case per signature that did not reproduce when repeated at once
-	Facts       map[string][]string `json:"facts"` // values reported by workers under a key; the driver compares them
+	Facts       map[string][]string `json:"facts"`   // values reported by workers under a key; the driver compares them
 	HarnessErr  []string            `json:"harness_err"`
 }
 
